@@ -176,6 +176,14 @@ struct VecSlot : IVec {
     size_t k = 0;
     for (const T& e : v.iterate()) { SIM_CHECK(memcmp(&e, &m[k], sizeof(T)) == 0, "c18:vector-content", "ArenaVector<%s> iterate(): element %zu differs", tname, k); k++; }
     SIM_CHECK(k == m.size(), "c18:vector-size", "ArenaVector<%s> iterate() visited %zu of %zu", tname, k, m.size());
+    // lookups (values repeat in these vectors, so first and last index differ regularly)
+    if (!m.empty()) {
+      const T& probe = m[m.size() / 2];
+      size_t first = SIZE_MAX, last = SIZE_MAX;
+      for (size_t i = 0; i < m.size(); i++) if (memcmp(&m[i], &probe, sizeof(T)) == 0) { if (first == SIZE_MAX) first = i; last = i; }
+      SIM_CHECK(v.contains(probe) && v.index_of(probe) == first && v.last_index_of(probe) == last, "c18:vector-lookup", "ArenaVector<%s> %s: contains/index_of/last_index_of give %d/%zu/%zu, the model says 1/%zu/%zu", tname, when,
+                int(v.contains(probe)), v.index_of(probe), v.last_index_of(probe), first, last);
+    }
   }
 
   void drop() override { v.reset(); m.clear(); }
